@@ -904,6 +904,7 @@ func run(r *ev.Run, id string) {
 		r.Sample("graph", map[string]interface{}{"pool": p, "clients": nc, "states": res.States, "transitions": res.Transitions, "depth": res.Depth, "fixpoint": res.Fixpoint, "merge_checks": res.MergeChecks})
 	}
 	manyLeases(r, id)
+	quotaLeases(r, id)
 	hintLifetimes(r, id)
 	gaps(r, id)
 	spelledPools(r, id)
@@ -1017,6 +1018,27 @@ func hintLifetimes(r *ev.Run, id string) {
 		}
 		r.Add("hint_lifetime_histories", 1)
 	}
+}
+
+// quotaLeases: one client collects 1..40 prefixes on a 64-block pool (one new block per message,
+// the first one renewed along the way); after every step another client asks without a hint and
+// must never be given a block the first one holds.
+func quotaLeases(r *ev.Run, id string) {
+	s := NewSys(r, id, Pool{"2001:db8:0:40::/58", 64}, 2, false)
+	for k := 0; k < 40 && !s.Terminal(); k++ {
+		p := s.blockPrefix(int64(63 - k))
+		s.Apply(Op{Client: "A", Msg: 3, IAPDs: [][]string{{p}}}, true)
+		if k%4 == 3 && !s.Terminal() {
+			if own, ok := s.resolve("A", "own1"); ok {
+				s.Apply(Op{Client: "A", Msg: 5, IAPDs: [][]string{{own}, {s.blockPrefix(int64(63 - k - 1))}}}, true)
+				k++
+			}
+		}
+		if k%5 == 4 && !s.Terminal() {
+			s.Apply(Op{Client: "B", Msg: 1, IAPDs: [][]string{{}, {"::/0"}}}, true)
+		}
+	}
+	r.Add("quota_sweeps", 1)
 }
 
 func manyLeases(r *ev.Run, id string) {
